@@ -191,7 +191,7 @@ func aliased(t string) bool {
 }
 
 func cause(t string) string {
-	if kindOfTxn(t) == "commit" {
+	if !strings.HasPrefix(kindOfTxn(t), "gov-") {
 		return ""
 	}
 	if aliased(t) {
@@ -612,7 +612,7 @@ func main() {
 		ID: "C06", Model: "", Gen: gen, Impl: impl, Oracle: oracle, Serial: true,
 		Cases: func(th bool) int {
 			if th {
-				return 1500
+				return 500
 			}
 			return 80
 		},
